@@ -53,10 +53,21 @@ def ann_src(t, quoted_ok=True) -> str:
     if k == "tuple":
         return "Tuple[" + ", ".join(ann_src(a, quoted_ok) for a in t["as"]) + "]"
     if k == "union":
+        if t.get("op") and quoted_ok:
+            # utype's own operator on a Schema class: `C | 'B' | int` (LogicalType.combine makes the ForwardRef)
+            return " | ".join(ann_src(a, quoted_ok) for a in t["as"])
         return "Union[" + ", ".join(ann_src(a, quoted_ok) for a in t["as"]) + "]"
     if k == "whole":
         return repr(ann_src(t["a"], False))
     raise ValueError(k)
+
+
+def field_src(case, t) -> str:
+    # with postponed annotations the whole annotation is a string already: leaves are written bare
+    # (a quoted leaf inside a string annotation would be a ForwardRef nested in the evaluated value)
+    if case.get("future"):
+        return ann_src(strip(t), False)
+    return ann_src(t)
 
 
 def class_src(case, name, ind) -> list:
@@ -71,7 +82,7 @@ def class_src(case, name, ind) -> list:
     if not c["fields"]:
         lines.append(f"{ind}    pass")
     for fname, t in c["fields"]:
-        lines.append(f"{ind}    {fname}: {ann_src(t)} = Field(required=False)")
+        lines.append(f"{ind}    {fname}: {field_src(case, t)} = Field(required=False)")
     return lines
 
 
@@ -101,9 +112,9 @@ def program_src(case) -> str:
                 lines += class_src(case, name, ind)
         elif "fn" in op:
             f = case["funcs"][op["fn"]]
-            ret = f" -> {ann_src(f['ret'])}" if f.get("ret") else ""
+            ret = f" -> {field_src(case, f['ret'])}" if f.get("ret") else ""
             lines.append(f"{ind}@utype.parse")
-            lines.append(f"{ind}def {op['fn']}(a: {ann_src(f['arg'])} = None, r=None){ret}:")
+            lines.append(f"{ind}def {op['fn']}(a: {field_src(case, f['arg'])} = None, r=None){ret}:")
             lines.append(f"{ind}    _seen_{op['fn']}.append(a)")
             lines.append(f"{ind}    return r")
         elif "use" in op:
@@ -403,9 +414,30 @@ def _typing_cells(case):
     for n in CLASS_NAMES:
         ns[n] = type(n, (), {})
     keep, ids, cells = [], {}, {}
+    fresh = [500]
+
+    def src(t):
+        # an operator union is a class for typing: stand-in name, its quoted members are fresh ForwardRefs
+        if t["t"] == "union" and t.get("op"):
+            fresh[0] += 1
+            ns[f"_OP{fresh[0]}"] = type(f"_OP{fresh[0]}", (), {})
+            return f"_OP{fresh[0]}"
+        k = t["t"]
+        if k in ("list", "dict", "opt"):
+            inner = src(t["a"])
+            return {"list": f"List[{inner}]", "dict": f"Dict[str, {inner}]", "opt": f"Optional[{inner}]"}[k]
+        if k in ("tuple", "union"):
+            return ("Tuple[" if k == "tuple" else "Union[") + ", ".join(src(a) for a in t["as"]) + "]"
+        return ann_src(t)
 
     def assign(t, obj, path):
         k = t["t"]
+        if k == "union" and t.get("op"):
+            for i, m in enumerate(t["as"]):
+                if m["t"] == "ref" and m.get("q"):
+                    fresh[0] += 1
+                    cells[path + (i,)] = fresh[0]
+            return
         if k == "ref":
             if t.get("q"):
                 assert isinstance(obj, typing.ForwardRef), (t, obj)
@@ -438,7 +470,8 @@ def _typing_cells(case):
         for f, t in fields:
             if is_top_string(case, t):
                 continue
-            obj = eval(ann_src(t), dict(ns))  # noqa: typing objects only
+            text = src(t)
+            obj = eval(text, dict(ns))  # noqa: typing objects only
             keep.append(obj)
             assign(t, obj, (i, f))
     return cells
@@ -580,7 +613,11 @@ def gen_type(rng, names, depth=2):
     if rng.random() < 0.6 or len(ms) < 2:
         ms.append({"t": "int"})
     t = {"t": "union", "as": ms}
-    return {"t": "opt", "a": t} if rng.random() < 0.2 else t
+    if rng.random() < 0.2:
+        return {"t": "opt", "a": t}
+    if rng.random() < 0.45:
+        t["op"] = True
+    return t
 
 
 def respell(rng, t, allowed_direct, p_direct):
@@ -591,9 +628,19 @@ def respell(rng, t, allowed_direct, p_direct):
         return {"t": "ref", "n": t["n"], "q": q}
     if k in ("list", "dict", "opt"):
         return {"t": k, "a": respell(rng, t["a"], allowed_direct, p_direct)}
+    if k == "union" and t.get("op"):
+        # needs a Schema class as first operand, written as a bare name
+        first = t["as"][0]
+        if first["t"] == "ref" and first["n"] in allowed_direct and first["n"] in SCHEMA_OK[0]:
+            rest = [respell(rng, a, allowed_direct, p_direct) for a in t["as"][1:]]
+            return {"t": "union", "op": True, "as": [{"t": "ref", "n": first["n"], "q": False}] + rest}
+        return {"t": "union", "as": [respell(rng, a, allowed_direct, p_direct) for a in t["as"]]}
     if k in ("tuple", "union"):
         return {"t": k, "as": [respell(rng, a, allowed_direct, p_direct) for a in t["as"]]}
     return t
+
+
+SCHEMA_OK = [set()]
 
 
 def all_direct(t):
@@ -694,6 +741,7 @@ def gen_case(rng, tier="quick"):
             classes[sub]["fields"] = [[f"f{nb + i}", t] for i, (_, t) in enumerate(classes[sub]["fields"])]
     # spellings
     p_direct = rng.choice([0.0, 0.3, 0.5, 0.8])
+    SCHEMA_OK[0] = set() if future else {n for n in names if classes[n]["kind"] == "schema"}
     for pos, n in enumerate(order):
         earlier = order[:pos]
         fs = []
